@@ -166,6 +166,7 @@ def check_areas(spec: dict) -> dict:
     areas_present = False
     regions_failed = False
     stripped = False
+    regions_cleared = False
     core_now = {gene["name"]: set(gene.get("core_for", [])) for gene in spec["genes"]}
     for op in spec["ops"]:
         kind, _, index = op.partition(":")
@@ -180,6 +181,9 @@ def check_areas(spec: dict) -> dict:
                 protos = [make_protocluster(proto["core"], proto["loc"], product=proto["product"])
                           for proto in spec["protoclusters"]]
                 subs = [make_subregion(sub["loc"], label=f"s{i}") for i, sub in enumerate(spec["subregions"])]
+            elif kind == "clear_regions":
+                record.clear_regions()
+                regions_cleared = True
             elif kind == "core":
                 name = f"g{index}"
                 for product in genes[name].get("core_for", []):
@@ -262,6 +266,7 @@ def check_areas(spec: dict) -> dict:
                         else "areas_before_regions",
                         "gene_after_area" if added_after_area else "genes_first",
                         "stripped_and_rebuilt" if stripped else "built_once",
+                        "regions_cleared_once" if regions_cleared else "regions_never_cleared",
                         "has_regions" if regions else "no_regions",
                         "span_area" if any(len(a.location.parts) > 1 for _, a in collections) else "plain_areas"]}
 
@@ -292,6 +297,9 @@ def one_query(draw):
     anchors = tuple(x for g in genes for p in g["loc"]["parts"] for x in p)
     query = draw(gen.arc(length, allow_span=circular, strands=(1,), anchors=anchors))
     query.pop("kind", None)
+    # the strand of the question does not matter for which genes lie in it (areas are forward, locations read from
+    # text may carry strand 0 or none)
+    query["strand"] = draw(st.sampled_from([1, 1, 0, None]))
     return {"L": length, "circular": circular, "genes": genes, "query": query,
             "overlapping": draw(st.booleans())}
 
@@ -347,6 +355,9 @@ def area_specs(draw):
         # any interleaving at all: areas may be added after candidates / regions were created
         ops = list(draw(st.permutations(ops)))
     if draw(st.integers(0, 3)) == 0:
+        # regions cleared at the end (no gene may keep pointing at one), and perhaps created again
+        ops = ops + ["clear_regions"] + (["regions"] if draw(st.booleans()) else [])
+    elif draw(st.integers(0, 2)) == 0:
         # a second life: strip what antiSMASH added, annotate some genes again, add (some of) the areas again
         again = [f"core:{i}" for i, gene in enumerate(genes) if gene["core_for"] and draw(st.booleans())]
         readd = [op for op in area_ops if draw(st.integers(0, 3)) > 0]
